@@ -136,7 +136,9 @@ Fixpoint conv (fuel : nat) (env : tenv) (t : tid) (c : cell) : option val :=
               end
             else None
         | KSlice =>
-            if kind_other_is (t_kind (tget env (t_elem d))) "uint8" then
+            (* only the unnamed []byte is special-cased by convertAssign; a named
+               byte-slice type accepts neither an integer nor (directly) NULL *)
+            if kind_other_is (t_kind (tget env (t_elem d))) "uint8" && str_eqb (t_name d) [] then
               match c with
               | CNull => Some (VSlice true [])
               | CInt id => Some (VSlice false (map (fun b => VLeaf b (N.eqb b 0)) (itoa id)))
